@@ -435,9 +435,12 @@ def alias_names(files, detail):
         return False
     a, b = m.groups()
     for text in files.values():
+        # comments and string literals out first (a comment may stand between any two tokens)
+        text = re.sub(r'"(?:\\.|[^"\\\n])*"|\'(?:\\.|[^\'\\\n])*\'|//[^\n]*|/\*.*?\*/', lambda m: '""' if m.group(0)[0] in "\"'" else " ", text, flags=re.S)
         for body in re.findall(r"\benum\s+\w+\s*\{([^{}]*)\}", text):
             nums = {}
-            for name, num in re.findall(r"\b(\w+)\s*=\s*(-?(?:0[xX][0-9a-fA-F]+|\d+))", body):
+            for name, num in re.findall(r"\b(\w+)\s*=\s*(-?\s*(?:0[xX][0-9a-fA-F]+|\d+))", body):
+                num = re.sub(r"\s", "", num)
                 try:
                     nums[name] = int(num, 0) if not re.fullmatch(r"-?0\d+", num) else int(num, 8)
                 except ValueError:
